@@ -19,9 +19,14 @@ type wop struct {
 
 var wnames = []string{"a", "b", "x"}
 
+var wnames1 = []string{"a", "b", "x"}
+
 func (w wop) call(dirs []string) *Call {
 	c := NewCall(w.proc)
 	c.Fh, c.Name = dirs[w.d], wnames[w.n]
+	if w.proc == "SYMLINK" {
+		c.Target, c.TLen = "/t", 2
+	}
 	if w.proc == "RENAME" {
 		c.Fh2, c.Name2 = dirs[w.d2], wnames[w.n2]
 	}
@@ -33,6 +38,7 @@ func (w wop) call(dirs []string) *Call {
 func RunWindows(seed, part, parts int, t *Trace, seg int) int {
 	// base image: D1 (inode 5), D2 (6) created after three junk files which are then removed
 	base, setup, dirs := windowBase()
+	wnames = wnames1
 	var victims, pool []wop
 	for _, n := range []int{0, 1} {
 		victims = append(victims, wop{"LOOKUP", 1, n, 0, 0}, wop{"REMOVE", 1, n, 0, 0})
@@ -62,9 +68,32 @@ func RunWindows(seed, part, parts int, t *Trace, seg int) int {
 			}
 		}
 	}
+	// second family: the retry loop of CREATE/MKDIR/SYMLINK when the allocated inode is still being freed
+	base2, setup2, dirs2 := getallocBase()
+	nfam1 := len(exps)
+	wnames2 := []string{"f", "D", "D2", "D3"}
+	for _, vp := range []string{"CREATE", "MKDIR", "SYMLINK"} {
+		for _, in := range [][]wop{
+			{{"RMDIR", 0, 1, 0, 0}, {"MKDIR", 0, 2, 0, 0}, {"MKDIR", 0, 3, 0, 0}},
+			{{"RMDIR", 0, 1, 0, 0}, {"MKDIR", 0, 2, 0, 0}},
+			{{"RMDIR", 0, 1, 0, 0}},
+			{{"CREATE", 1, 0, 0, 0}},
+			{{"MKDIR", 1, 0, 0, 0}},
+			{{"CREATE", 1, 0, 0, 0}, {"REMOVE", 1, 0, 0, 0}},
+			{{"CREATE", 0, 2, 0, 0}},
+		} {
+			exps = append(exps, exp{wop{vp, 1, 0, 0, 0}, in})
+		}
+	}
 	for k, e := range exps {
-		if k%parts != part {
+		if k < nfam1 && (part < 0 || k%parts != part) {
 			continue
+		}
+		if k >= nfam1 && part >= 0 {
+			continue // the second family is its own slice (-part -1)
+		}
+		if k >= nfam1 {
+			base, setup, dirs, wnames = base2, setup2, dirs2, wnames2
 		}
 		img := base.Clone()
 		s, err := Start(img, true)
